@@ -343,6 +343,103 @@ theorem listing_ids_nodup (es : List (Bool × Nat × Nat)) (hd : ∀ e ∈ es, I
       simp [this]
     exact hn.1 (hab ▸ hb)
 
+/-! #### (vi) an id addresses the entry whose name it encodes, or nothing
+
+`filenameEq` is `Filename_t.Eq` as the code has it, `confirmWith filenameEq` the last step of
+`cmsys.GetRecord`, `resolveId` an entry point that is handed an id; the position the search proposes
+(FindRecordStartIdx: exact hit or the nearest entry — C06) is arbitrary here. -/
+
+/-- `Eq` holds between two names of the domain exactly when creation time and suffix agree (the type
+letter is not compared). -/
+theorem filenameEq_render (m m' : Bool) (t p t' p' : Nat) (h : InDomain t p) (h' : InDomain t' p') :
+    filenameEq (render m t p) (render m' t' p') = true ↔ t = t' ∧ p = p' := by
+  unfold filenameEq
+  rw [cstr_drop2_render, cstr_drop2_render]
+  constructor
+  · intro e
+    have e' : tail18 t p = tail18 t' p' := by simpa using e
+    have r : render true t p = render true t' p' := by rw [render_of_tail, render_of_tail, e']
+    exact (render_injective true true t p t' p' h h' r).2
+  · rintro ⟨rfl, rfl⟩; simp
+
+/-- a delete-marked entry compares like the name it had. -/
+theorem filenameEq_deleted (f g : List Nat) : filenameEq f (markDeleted g) = filenameEq f g := by
+  simp [filenameEq, markDeleted]
+
+/-- the confirmation returns the proposed position or nothing, and only an entry that `Eq`s the name. -/
+theorem confirm_sound (idx : List (List Nat)) (want : List Nat) (pos q : Nat)
+    (e : confirmWith filenameEq idx want pos = some q) :
+    q = pos ∧ ∃ h, idx[pos]? = some h ∧ filenameEq want h = true := by
+  unfold confirmWith at e
+  cases hh : idx[pos]? with
+  | none => simp [hh] at e
+  | some h =>
+    simp only [hh] at e
+    by_cases c : filenameEq want h = true
+    · simp [c] at e; exact ⟨e.symm, h, rfl, c⟩
+    · simp [c] at e
+
+/-- an index entry: delete-marked or not, type letter, time, suffix. -/
+def entryName (e : Bool × Bool × Nat × Nat) : List Nat :=
+  if e.1 then markDeleted (render e.2.1 e.2.2.1 e.2.2.2) else render e.2.1 e.2.2.1 e.2.2.2
+
+theorem filenameEq_entry (m : Bool) (t p : Nat) (e : Bool × Bool × Nat × Nat) (h : InDomain t p)
+    (he : InDomain e.2.2.1 e.2.2.2) :
+    filenameEq (render m t p) (entryName e) = true ↔ t = e.2.2.1 ∧ p = e.2.2.2 := by
+  unfold entryName
+  split
+  · rw [filenameEq_deleted]; exact filenameEq_render m e.2.1 t p e.2.2.1 e.2.2.2 h he
+  · exact filenameEq_render m e.2.1 t p e.2.2.1 e.2.2.2 h he
+
+/-- whatever position the search proposes (an exact hit, the nearest older entry, anything): an entry
+point handed the id of a name resolves it to an entry with that creation time and suffix — never to a
+neighbour. -/
+theorem resolveId_designates (es : List (Bool × Bool × Nat × Nat)) (hd : ∀ e ∈ es, InDomain e.2.2.1 e.2.2.2)
+    (m : Bool) (t p : Nat) (h : InDomain t p) (propose : List (List Nat) → List Nat → Nat) (pos : Nat)
+    (r : resolveId (es.map entryName) (toArticleID (render m t p)) propose = .ok (some pos)) :
+    ∃ e, es[pos]? = some e ∧ e.2.2.1 = t ∧ e.2.2.2 = p := by
+  unfold resolveId at r
+  rw [articleId_roundtrip m t p h] at r
+  simp only [bind, Except.bind, pure, Except.pure, Except.ok.injEq] at r
+  obtain ⟨hq, nm, hn, heq⟩ := confirm_sound _ _ _ _ r
+  rw [← hq, List.getElem?_map] at hn
+  cases he : es[pos]? with
+  | none => simp [he] at hn
+  | some e =>
+    simp only [he, Option.map_some, Option.some.injEq] at hn
+    subst hn
+    have hm : e ∈ es := List.mem_of_getElem? he
+    have := (filenameEq_entry m t p e h (hd e hm)).1 heq
+    exact ⟨e, rfl, this.1.symm, this.2.symm⟩
+
+/-- an id whose name has no entry in the index (article removed, arbitrary client text) resolves to
+nothing, wherever the search falls back to. -/
+theorem resolveId_absent (es : List (Bool × Bool × Nat × Nat)) (hd : ∀ e ∈ es, InDomain e.2.2.1 e.2.2.2)
+    (m : Bool) (t p : Nat) (h : InDomain t p) (propose : List (List Nat) → List Nat → Nat)
+    (habs : ∀ e ∈ es, ¬ (e.2.2.1 = t ∧ e.2.2.2 = p)) :
+    resolveId (es.map entryName) (toArticleID (render m t p)) propose = .ok none := by
+  cases r : resolveId (es.map entryName) (toArticleID (render m t p)) propose with
+  | error f =>
+    unfold resolveId at r
+    rw [articleId_roundtrip m t p h] at r
+    simp [bind, Except.bind, pure, Except.pure] at r
+  | ok o =>
+    cases o with
+    | none => rfl
+    | some pos =>
+      obtain ⟨e, he, h1, h2⟩ := resolveId_designates es hd m t p h propose pos r
+      exact absurd ⟨h1, h2⟩ (habs e (List.mem_of_getElem? he))
+
+/-- the comparison "suffix only" (the three hex digits, `Filename_t.Postfix`). -/
+def suffixEq (f g : List Nat) : Bool := (f.take 18).drop 15 == (g.take 18).drop 15
+
+/-- why the creation time has to be part of `Eq`: with the suffix-only rule the confirmation accepts the
+nearest entry for an absent name one second later; with the code's rule it does not. -/
+theorem suffix_rule_witness :
+    confirmWith suffixEq [render true 1607203395 13] (render true 1607203396 13) 0 = some 0 ∧
+    confirmWith filenameEq [render true 1607203395 13] (render true 1607203396 13) 0 = none := by
+  decide +kernel
+
 /-! #### non-vacuity: the domain is inhabited and the statements say something on it -/
 
 /-- "WhoAmI" in a 13-byte board-name array. -/
@@ -384,5 +481,14 @@ example : InDomain 1234567890 0x1AB := by unfold InDomain; omega
 example : fnToAidu (render true 1234567890 0x1AB) = 5056790077867 := by decide +kernel
 example : aidcToAidu [128, 255, 48, 48, 48, 48, 48, 48] = .ok 0 := by
   simp [aidcToAidu, aidcToAiduAux, table_length]
+
+-- (vi): an index with a present entry, its delete-marked neighbour, and an absent name next to them
+example : ∀ e ∈ ([(false, true, 1607203395, 13), (true, true, 1607203395, 14)] : List (Bool × Bool × Nat × Nat)),
+    InDomain e.2.2.1 e.2.2.2 ∧ ¬ (e.2.2.1 = 1607203396 ∧ e.2.2.2 = 13) := by
+  intro e he
+  simp at he
+  rcases he with rfl | rfl <;> (unfold InDomain; simp)
+example : filenameEq (render true 1607203395 13) (render false 1607203395 13) = true :=
+  (filenameEq_render true false 1607203395 13 1607203395 13 (by unfold InDomain; omega) (by unfold InDomain; omega)).2 ⟨rfl, rfl⟩
 
 end PttVerif.C13.Props
